@@ -168,6 +168,8 @@ def run(an: Analysis, rep):
     from .common import SharedRules, purity
     from . import c08
     rep.run(purity, an, rep, "R15.P", list(ENTRIES))
+    from .common import assert_guard_rule as _agrx
+    rep.run(_agrx, an, rep, "R15.G", list(ENTRIES))
     from .common import old_interpreter_rule
     rep.run(old_interpreter_rule, an, rep, "R15.V", list(ENTRIES))
     rep.run(c08.r083, an, SharedRules(rep, "R15.S", "what from_json_data builds has the shape the data classes declare (tuples, not the lists of the document) (shared with C08's R08.3): otherwise re-serialising the loaded data fails or differs"))
